@@ -909,6 +909,110 @@ def e2e_rekey_changed_key(ctx, kex, plan_name):
         e.close()
 
 
+def newkeys_source_facts(ctx):
+    """source fact: Transport._parse_newkeys calls self._activate_inbound() as a TOP-LEVEL statement (no branch can
+    skip it and still reach the completion statements), before completion_event.set(), with no return before it."""
+    import ast
+    import os
+    from pv.core import REPO
+
+    tree = ast.parse(open(os.path.join(REPO, "paramiko", "transport.py"), encoding="utf-8").read())
+    fn = next((f for f in ast.walk(tree) if isinstance(f, ast.FunctionDef) and f.name == "_parse_newkeys"), None)
+    if fn is None:
+        ctx.disagree("_parse_newkeys-source", {}, "exists", "missing")
+        return
+
+    def is_call(stmt, attr):
+        return (isinstance(stmt, ast.Expr) and isinstance(stmt.value, ast.Call) and
+                isinstance(stmt.value.func, ast.Attribute) and stmt.value.func.attr == attr)
+
+    idx = [i for i, st in enumerate(fn.body) if is_call(st, "_activate_inbound")]
+    nested = [n for n in ast.walk(fn) if isinstance(n, ast.Call) and isinstance(n.func, ast.Attribute)
+              and n.func.attr == "_activate_inbound"]
+    early_return = any(isinstance(n, ast.Return) for st in fn.body[:idx[0]] for n in ast.walk(st)) if idx else False
+    done = [i for i, st in enumerate(fn.body) if "completion_event" in ast.unparse(st)]
+    if len(idx) != 1 or len(nested) != 1 or early_return or not done or done[0] < idx[0]:
+        ctx.disagree("_parse_newkeys-activates-inbound-conditionally", {},
+                     "one unconditional self._activate_inbound() before the completion statements",
+                     "top-level calls %d, calls in all %d, return before it %s" % (len(idx), len(nested), early_return))
+    ctx.dist("source:_parse_newkeys-facts")
+
+
+def e2e_rekey_omission(ctx, kex, kind, algo, variant):
+    """a rogue server answers the client's re-key KEXINIT while OMITTING parts of the exchange: a bare NEWKEYS; its
+    KEXINIT followed at once by NEWKEYS (no kex reply, no signature).  A re-key the client reports as complete must
+    have verified a signature over a NEW exchange hash; otherwise the client must end the session."""
+    import threading
+    from paramiko.message import Message
+    from pv.core import InfraError
+
+    e = L.E2E(kex, L.host_key(kind), key_algo=algo)
+    case = {"kex": kex, "hostkey": kind, "algo": algo, "server_answers_rekey_with": variant}
+    try:
+        err = e.handshake(timeout=60)
+        if err is not None or not L_wait_logs(e, 1):
+            ctx.disagree("e2e-honest-handshake-failed", case, "completes", repr(err))
+            return
+        verified = []
+        orig_vk = e.tc._verify_key
+
+        def vk(host_key, sig):
+            orig_vk(host_key, sig)
+            verified.append(bytes(e.tc.H))
+
+        e.tc._verify_key = vk
+        first_H = e.log["c"][0][1]
+        orig_kexinit = e.ts._handler_table[20]
+        orig_send = e.ts._send_message
+        hit = []
+
+        def bare_newkeys():
+            m = Message()
+            m.add_byte(b"\x15")
+            orig_send(m)
+
+        def on_kexinit(m):
+            hit.append(1)
+            if variant == "bare-newkeys":
+                bare_newkeys()
+                return
+            # its own KEXINIT, then NEWKEYS at once; whatever the engine would send later is withheld
+            e.ts._send_message = lambda msg: None if msg.asbytes()[0] in (21, 31, 33) else orig_send(msg)
+            orig_kexinit(m)
+            bare_newkeys()
+
+        e.ts._handler_table[20] = on_kexinit
+        out = {}
+
+        def go():
+            try:
+                e.tc.renegotiate_keys()
+                out["res"] = None
+            except Exception as ex:
+                out["res"] = ex
+
+        th = threading.Thread(target=go, daemon=True)
+        th.start()
+        th.join(90)
+        if th.is_alive():
+            raise InfraError("C06: renegotiate_keys did not return within 90 s")
+        ctx.case(("e2e-rekey-omission", kex, algo, variant), True)
+        ctx.dist("e2e-rekey-omission:%s:%s" % (variant, "reported-complete" if out["res"] is None else "session-ended"))
+        if not hit:
+            ctx.disagree("rekey-omission-hook-not-reached", case, "server saw the client's KEXINIT", "not seen")
+            return
+        if out["res"] is None:
+            with e.cv:
+                n_kh = len(e.log["c"])
+            new_h = [h for h in verified if h != first_H]
+            if n_kh < 2 or not new_h:
+                ctx.fail("rekey-reported-complete-without-verified-exchange:" + variant, case,
+                         "renegotiate_keys() returned normally: _set_K_H calls in total %d, signatures verified over a new "
+                         "exchange hash %d, client still active=%s" % (n_kh, len(new_h), e.tc.is_active()))
+    finally:
+        e.close()
+
+
 def end_to_end(ctx):
     rng = ctx.rng
     if ctx.thorough:
@@ -986,6 +1090,14 @@ def end_to_end(ctx):
     for i, plan_name in enumerate(["types", "rotation", "mixed"]):
         for kex in (kx if ctx.thorough else [kx[(i + ctx.seed) % len(kx)], kx[(i + 3 + ctx.seed) % len(kx)]]):
             e2e_rekey_changed_key(ctx, kex, plan_name)
+    # a rogue server that OMITS parts of a re-exchange
+    oplan = [("c25519", "ed25519", "ssh-ed25519", "bare-newkeys"), ("group14-256", "rsa", "rsa-sha2-512", "bare-newkeys"),
+             ("nistp256", "ecdsa256", "ecdsa-sha2-nistp256", "kexinit-then-newkeys"),
+             ("gex256", "ed25519", "ssh-ed25519", "kexinit-then-newkeys")]
+    if ctx.thorough:
+        oplan = [(k, "ed25519", "ssh-ed25519", v) for k in ALL_ENGINES for v in ("bare-newkeys", "kexinit-then-newkeys")]
+    for kex, kind, algo, v in oplan:
+        e2e_rekey_omission(ctx, kex, kind, algo, v)
     # the same on a re-exchange (host key unchanged)
     rfields = ["signature", "value", "replayed-signature"]
     if ctx.thorough:
@@ -1104,6 +1216,7 @@ def run(ctx):
     real_point_encoding_oracle(ctx)
     set_k_h_level(ctx)
     host_key_publication_facts(ctx)
+    newkeys_source_facts(ctx)
     connect_level(ctx)
     end_to_end(ctx)
 
